@@ -70,6 +70,10 @@ def dopOf (o : Json) : M DOp := do
   | "cfg_borrow" => pure (.cfgBorrow (← a[1]!.getNat?))
   | "cfg_fire" => pure (.cfgFire (← asNats (← a[1]!.getArr?)))
   | "cfg_degree_at" => pure (.cfgDegreeAt (← a[1]!.getNat?))
+  | "swap" => pure (.swap (← a[1]!.getNat?) (← a[2]!.getNat?))
+  | "cfg_superstable" => pure .cfgSuperstable
+  | "cfg_nonneg" => pure .cfgNonNeg
+  | "cfg_legal" => pure (.cfgLegal (← asNats (← a[1]!.getArr?)))
   | _ => throw s!"divisor op {kind}"
 
 def opDivHist (j : Json) : M Json := do
@@ -239,6 +243,29 @@ def pairsOf (a : Array Json) : M (List (Nat × Nat)) :=
     let t ← e.getArr?
     pure (← t[0]!.getNat?, ← t[1]!.getNat?)
 
+/-- `reverse` result kept alive by the caller and inspected again later: it is a value of its own -/
+def keptStep {n : Nat} (G : Graph n) (o : Orient n) (kept : Option (Orient n)) (op : Json) :
+    M (Option (Option (Orient n) × Json)) := do
+  let a ← op.getArr?
+  let kind ← a[0]!.getStr?
+  match kind with
+  | "reverse_keep" =>
+    let (o', f) := Orient.needFull G o
+    if !f then pure (some (kept, Json.mkObj [("r", err), ("o", jOrient G o' true)])) else
+    match Orient.new G (Orient.reversedPairs G o') with
+    | .ok r => pure (some (some r, Json.mkObj [("r", jOrient G r true), ("o", jOrient G o' true)]))
+    | .error _ => pure (some (kept, Json.mkObj [("r", err), ("o", jOrient G o' true)]))
+  | "inspect_kept" =>
+    pure (some (kept, Json.mkObj [("r", match kept with | some r => jOrient G r true | none => Json.null), ("o", jOrient G o true)]))
+  | "set_kept" =>
+    match kept, ref? n (← a[1]!.getNat?), ref? n (← a[2]!.getNat?) with
+    | some r, some u, some v =>
+      let st ← a[3]!.getNat?
+      let r' := Orient.oapply G r (.set u.1 v.1 st)
+      pure (some (some r', Json.mkObj [("r", if Orient.oaccepts G r u.1 v.1 st then Json.str "ok" else err), ("o", jOrient G o true)]))
+    | _, _, _ => pure (some (kept, Json.mkObj [("r", err), ("o", jOrient G o true)]))
+  | _ => pure none
+
 def opOrientHist (j : Json) : M Json := do
   let n ← getNat j "n"
   match ← graphOf j n with
@@ -248,11 +275,20 @@ def opOrientHist (j : Json) : M Json := do
     | .error _ => pure (Json.mkObj [("ctor", err)])
     | .ok o0 =>
       let mut o := o0
+      let mut kept : Option (Orient n) := none
       let mut outs : Array Json := #[]
       for op in getArrD j "ops" do
-        let (o', r) ← orientStep G o op
-        o := o'
-        outs := outs.push r
+        match ← keptStep G o kept op with
+        | some (k', r) =>
+          -- `reverse_keep` refreshes the flags of the source like `reverse`
+          let a ← op.getArr?
+          if (← a[0]!.getStr?) == "reverse_keep" then o := Orient.oapply G o .needFull
+          kept := k'
+          outs := outs.push r
+        | none =>
+          let (o', r) ← orientStep G o op
+          o := o'
+          outs := outs.push r
       pure (Json.mkObj [("ctor", jOrient G o0 true), ("steps", Json.arr outs), ("graph", jGraph G)])
 
 /-! configuration queries -/
